@@ -24,7 +24,7 @@ ASSUMPTIONS = [
     'read bits (_rbits_), setdata.count / is_fully_loaded / absent and the None-vs-empty distinction of setdata.added/removed are not modelled',
     'commit is modelled only as session bookkeeping and only on states no known-bad failure has touched',
 ]
-RULE = ('histories = hand-minimised scenario histories (23, all clean since the repairs) + every injected fault (site x k) on their last call + seeded random histories over '
+RULE = ('histories = hand-minimised scenario histories (25, all clean since the repairs) + every injected fault (site x k) on their last call + seeded random histories over '
         '3 schemas (populate a hub and its dependents, then mostly doomed modifications, commits, injected faults), each stopped at the first raising call '
         'that changes the snapshot; non-trivial = the history contains at least one raising modification; distinct = distinct canonical (schema, op list)')
 
@@ -259,7 +259,7 @@ LEVEL_TEXT = ('Machine-checked proof (Coq 8.16.1), for every schema, every sessi
               'raises leaves every observable location of the session (values, both sides of collections with pending added/removed, index lookups, statuses, '
               'write bits, objects_to_save, modified_collections) unchanged - for every run that stays in the shapes the code itself asserts (the eight code sites that used to mutate without a correct undo were '
               'repaired in /repo and are gone from the model; no open finding). The model (undo closures as data) is compared '
-              'with real Pony + SQLite on scenario, fault-enumeration and random histories on every run, with every injected fault on 23 scenario histories.')
+              'with real Pony + SQLite on scenario, fault-enumeration and random histories on every run, with every injected fault on 25 scenario histories.')
 LEVEL_NOTE = ('Trusted: Coq kernel + vm_compute; the hand-written model and its correspondence harness (one db_session, everything loaded, <= 8 objects per history). '
               'known_bad is defined by the run itself: the only mark left is TInconsistent (a dictionary / queue not in the shape the code asserts; C13_sites_complete; never produced on any generated history, but not shown unreachable - that needs the invariants of C11/C12). '
               '"A later commit writes nothing" follows only through equality of the observed state; commit itself is modelled as bookkeeping (SQL: C15/C16).')
